@@ -54,7 +54,7 @@ Definition cass_class (c : ascii) : cclass :=
   else if is_space c || (code c =? 44) then KSkip
   else KBad.
 
-(* the scanner of cqltype_to_python:  [a-zA-Z0-9_]+ ,  '<' ,  '>' ,  ',' and ' '  (quoted names: see cql_lex) *)
+(* the unquoted part of the scanner of cqltype_to_python:  [a-zA-Z0-9_]+ ,  '<' ,  '>' ,  ',' and ' '  (quoted names: cql_lex) *)
 Definition cql_class (c : ascii) : cclass :=
   if (code c =? 60) || (code c =? 62) || (code c =? 44) then KPunct
   else if is_alnum_ c then KWord
@@ -585,8 +585,35 @@ Fixpoint py_run (toks : list str) (st : pstate) (stack : list (list pyt)) : opti
         end
   end.
 
+(* the scanner of cqltype_to_python including its last rule  ".*?"  (non-greedy: a double quote, then everything up to the NEXT
+   double quote; '.' does not match a newline).  A quoted token stays one word, quotes included.  None = the scan stops early or
+   the token would not survive ast.literal_eval unchanged (', backslash, CR, NUL inside the quotes): not modelled. *)
+Definition qsafe (c : ascii) : bool :=
+  negb (code c =? 34) && negb (code c =? 39) && negb (code c =? 92) && negb (code c =? 10) && negb (code c =? 13) && negb (code c =? 0).
+Definition dq : ascii := ascii_of_N 34.
+
+Fixpoint cql_lex (s : str) (acc : str) (inq : option str) : option (list str) :=
+  match s with
+  | [] => match inq with Some _ => None | None => Some (flush acc []) end
+  | c :: s' =>
+      match inq with
+      | Some q =>
+          if code c =? 34 then match cql_lex s' [] None with Some r => Some ((dq :: q ++ [dq]) :: r) | None => None end
+          else if qsafe c then cql_lex s' [] (Some (q ++ [c]))
+          else None
+      | None =>
+          if code c =? 34 then match cql_lex s' [] (Some []) with Some r => Some (flush acc r) | None => None end
+          else match cql_class c with
+               | KWord => cql_lex s' (acc ++ [c]) None
+               | KPunct => match cql_lex s' [] None with Some r => Some (flush acc ([c] :: r)) | None => None end
+               | KSkip => match cql_lex s' [] None with Some r => Some (flush acc r) | None => None end
+               | KBad => None
+               end
+      end
+  end.
+
 Definition cqltype_to_python (s : str) : option (list pyt) :=
-  match lexg cql_class s [] with
+  match cql_lex s [] None with
   | None => None
   | Some toks => py_run toks AtStart [[]]
   end.
@@ -722,8 +749,19 @@ Fixpoint vector_free (t : ty) : bool :=
 Definition reserved_words : list str :=
   [lit "frozen"; lit "list"; lit "set"; lit "map"; lit "tuple"; lit "vector"] ++ map cql_simple all_simple.
 
-Definition wf_cql_name (n : str) : bool :=
+(* UDT names as they are written in a CQL type string: a plain word, or a double-quoted identifier (any content without
+   double quote, single quote, backslash, newline: spaces, commas, angle brackets allowed) *)
+Definition plain_name (n : str) : bool :=
   negb (str_eqb n []) && forallb is_alnum_ n && negb (str_eqb n frozen_kw).
+Fixpoint qbody (r : str) : bool :=
+  match r with
+  | [] => false
+  | [e] => code e =? 34
+  | c :: r' => qsafe c && qbody r'
+  end.
+Definition quoted_name (n : str) : bool :=
+  match n with c :: r => (code c =? 34) && qbody r | [] => false end.
+Definition wf_cql_name (n : str) : bool := plain_name n || quoted_name n.
 
 Fixpoint wf_cql (t : ty) : bool :=
   match t with
